@@ -169,7 +169,7 @@ fn main() {
         let mut def = CheckDef::new(
             "C15",
             "exploration",
-            "bounded-exhaustive: every process state of the C14 spaces (index: thread/exception/Breakpad-info/context product x 12 CPUs, OS id rotating in quick and a factor in thorough; reason: OS x CPU x exception-record menus; proc: misc info / Linux status / module and unloaded-module layouts / up to 32 threads), of the C19 bit-flip space (quick: the amd64 and 32-bit blocks of it) and of a hostile-name space (every control character U+0000..U+001F singly and together, quote, backslash, non-BMP, U+FFFD, invalid UTF-8 in the lsb-release stream (decoded lossily), U+2028/9, BOM, 70 000-character name) x injection point {module, thread, function, source file, unloaded module, all} x {x86, amd64} is rendered with print_json(pretty in {false,true}); the bytes are parsed by an independent strict RFC 8259 parser and by serde_json, checked against a mechanisation of json-schema.md (field names, types, closed enumerations, hexstrings padded to the pointer width implied by cpu_arch), checked for the redundancies the property lists and compared string by string with the state they were rendered from. evaluations = renderings; distinct_nontrivial = distinct document shapes (field presence/types, hostile-character classes per string) x os x cpu x crash type.",
+            "bounded-exhaustive: every process state of the C14 spaces (index: thread/exception/Breakpad-info/context product x 12 CPUs, OS id rotating in quick and a factor in thorough; reason: OS x CPU x exception-record menus; proc: misc info / Linux status / module and unloaded-module layouts / up to 32 threads), of a fixed arithmetic progression through the C19 bit-flip space and of a hostile-name space (every control character U+0000..U+001F singly and together, quote, backslash, non-BMP, U+FFFD, invalid UTF-8 in the lsb-release stream (decoded lossily), U+2028/9, BOM, 70 000-character name) x injection point {module, thread, function, source file, unloaded module, all} x {x86, amd64} is rendered with print_json(pretty in {false,true}); the bytes are parsed by an independent strict RFC 8259 parser and by serde_json, checked against a mechanisation of json-schema.md (field names, types, closed enumerations, hexstrings padded to the pointer width implied by cpu_arch), checked for the redundancies the property lists and compared string by string with the state they were rendered from. evaluations = renderings; distinct_nontrivial = distinct document shapes (field presence/types, hostile-character classes per string) x os x cpu x crash type.",
         );
         def.assumptions = vec![
             "`<u32>` is checked as a non-negative JSON integer, not for range (the document's types are descriptive)".into(),
@@ -183,16 +183,12 @@ fn main() {
             "edge-modules space: a module or unloaded module whose base + size is 2^64-1 or 2^64 (8 cases; the reader drops list entries that would pass 2^64-1, the JSON must mirror the list the state holds)".into(),
         ];
         let bf = gen_bitflip(ctx.tier);
-        // quick: the bit-flip space is used at one permission rotation per region set
-        let bf = if ctx.tier == Tier::Quick {
-            let inner = bf.clone();
-            let stride = 97u64; // coprime with every radix of the space: visits every factor value
-            Gen { name: "bitflip", len: inner.len / stride, model: std::sync::Arc::new(move |i| (inner.model)(i * stride)) }
-        } else {
-            bf
-        };
-        def.extra.insert("bitflip_subspace".into(), json!(if ctx.tier == Tier::Quick { "every 97th case of the C19 space (fixed arithmetic progression, enumerated completely)" } else { "whole C19 space" }));
-        def.spaces = vec![space(gen_edge_modules(ctx.tier)), space(gen_names(ctx.tier)), space(gen_reason(ctx.tier)), space(gen_proc(ctx.tier)), space(bf), space(if ctx.tier == Tier::Quick { gen_index_opts(false, 1) } else { gen_index_opts(true, 4) })];
+        // the bit-flip space is used along a fixed arithmetic progression (stride coprime with every
+        // radix of the space, so every value of every factor occurs), enumerated completely
+        let stride: u64 = ctx.tier.pick(97, 17);
+        let bf = Gen { name: "bitflip", len: bf.len / stride, model: { let inner = bf.clone(); std::sync::Arc::new(move |i| (inner.model)(i * stride)) } };
+        def.extra.insert("bitflip_subspace".into(), json!(format!("every {stride}th case of the C19 space of this tier")));
+        def.spaces = vec![space(gen_edge_modules(ctx.tier)), space(gen_names(ctx.tier)), space(gen_reason(ctx.tier)), space(gen_proc(ctx.tier)), space(bf), space(if ctx.tier == Tier::Quick { gen_index_opts(false, 1) } else { gen_index_opts(true, 2) })];
         def
     })
 }
